@@ -46,14 +46,15 @@ def translate(repo: str) -> str:
         return e
 
     bound = {}
-    if len(body) == 2 and isinstance(body[0], (ast.Assign, ast.AnnAssign)) and isinstance(body[1], ast.Return):
-        tgt = body[0].targets[0] if isinstance(body[0], ast.Assign) else body[0].target
-        if not isinstance(tgt, ast.Name):
-            raise T.Untranslatable("get_protocol: assignment target")
-        bound[tgt.id] = body[0].value
-        call = unwrap_ret(body[1].value, bound)
-    elif len(body) == 1 and isinstance(body[0], ast.Return):
-        call = unwrap_ret(body[0].value, bound)
+    # leading `name = <expression>` statements (the generator, or the sorted key list hoisted into a local), then `return`
+    if body and isinstance(body[-1], ast.Return) and all(isinstance(b, (ast.Assign, ast.AnnAssign)) for b in body[:-1]) \
+            and len(body) <= 3:
+        for b in body[:-1]:
+            tgt = (b.targets[0] if len(b.targets) == 1 else None) if isinstance(b, ast.Assign) else b.target
+            if not isinstance(tgt, ast.Name) or tgt.id in bound or tgt.id == param or b.value is None:
+                raise T.Untranslatable("get_protocol: assignment target")
+            bound[tgt.id] = b.value
+        call = unwrap_ret(body[-1].value, bound)
     else:
         raise T.Untranslatable("get_protocol: statement shape")
     if not (isinstance(call, ast.Call) and isinstance(call.func, ast.Name) and call.func.id == "next" and len(call.args) == 2
@@ -66,6 +67,13 @@ def translate(repo: str) -> str:
     k = comp.target.id
     # SOURCE
     src = comp.iter
+    if isinstance(src, ast.Name) and src.id in bound and src.id != k:
+        # a local holding the sorted keys: sorted(...) builds its list before the first comparison either way
+        src = bound[src.id]
+    if isinstance(src, ast.Call) and isinstance(src.func, ast.Name) and src.func.id == "sorted" and len(src.args) == 1 \
+            and isinstance(src.args[0], ast.Call) and isinstance(src.args[0].func, ast.Attribute) and src.args[0].func.attr == "keys" \
+            and not src.args[0].args and not src.args[0].keywords and is_pv(src.args[0].func.value):
+        src = ast.Call(func=src.func, args=[src.args[0].func.value], keywords=src.keywords)   # sorted(d.keys()) == sorted(d)
     if not (isinstance(src, ast.Call) and isinstance(src.func, ast.Name) and src.func.id == "sorted" and len(src.args) == 1
             and is_pv(src.args[0])):
         raise T.Untranslatable("get_protocol: iteration source")
@@ -103,8 +111,10 @@ def translate(repo: str) -> str:
     ver = getattr(mod, "VERSION", None)
     if ver not in VER or pkg.PROTOCOL_VERSIONS.get(ver) is not mod:
         raise T.Untranslatable("get_protocol: default is not a protocol module")
-    return (f"def getProtocol ({param} : Str) : Except AvErr Ver :=\n"
-            f"  LV.nextOr (LV.sortedKeys {'true' if reverse else 'false'}) (fun {k} => {c}) (fun {k} => LV.moduleOf {k}) Ver.{VER[ver]}")
+    lp, lk = T.lean_ident(param), T.lean_ident(k)
+    c = c.replace(f"LV.avLt {param} {k}", f"LV.avLt {lp} {lk}")
+    return (f"def getProtocol ({lp} : Str) : Except AvErr Ver :=\n"
+            f"  LV.nextOr (LV.sortedKeys {'true' if reverse else 'false'}) (fun {lk} => {c}) (fun {lk} => LV.moduleOf {lk}) Ver.{VER[ver]}")
 
 
 HEADER = """/-
